@@ -306,6 +306,10 @@ func (r *runner) scenario() {
 	if len(idxs) > 0 {
 		victim = cs.Signers[cs.Victim%len(cs.Signers)]
 	}
+	if cs.Kind == "seq-verified" && chalOK && victim >= 0 && victim < cs.N && resp[victim] != nil {
+		r.seqVerified(cosi, randoms, publics, privs, rkeys, msg, resp, victim, valid, ops, T, kz, sumR, mask, commitsEl, key)
+		return
+	}
 	switch cs.Kind {
 	case "share-bit":
 		if s := resp[victim]; s != nil {
@@ -568,6 +572,129 @@ func (r *runner) scenario() {
 		}})
 }
 
+// seqVerified: order-dependent sequences on ONE CosiSignature object.  A good
+// share of the victim is verified first; a bad share for the same signer (bit
+// flipped / made with a foreign private key / made for another message) must
+// then still be refused by VerifyResponse and by strict aggregation on that very
+// object (control: a fresh object), the non-strict aggregate containing it must
+// fail FullVerify, and the good shares must still aggregate and verify.  The
+// model is stateless, so an acceptance that depends on the earlier call is a
+// mismatch as well as an oracle failure.
+func (r *runner) seqVerified(cosi *crypto.CosiSignature, randoms map[int]*crypto.Key, publics []*crypto.Key, privs []crypto.Key,
+	rkeys map[int]crypto.Key, msg crypto.Hash, resp map[int]*[32]byte, victim int, valid func(int, *[32]byte) bool,
+	ops []string, T *cosih.Tables, kz []*big.Int, sumR *big.Int, mask uint64, commitsEl []string, key string) {
+	cs := r.cs
+	good := resp[victim]
+	var bad [32]byte
+	mode := []string{"bit-flipped", "foreign-key", "other-message"}[cs.Aux%3]
+	switch mode {
+	case "bit-flipped":
+		bad = *good
+		flip(bad[:], cs.Bit)
+	case "foreign-key":
+		fk, _ := cosih.SeedKey(vh.NewRand(uint64(cs.Bit), "c13-foreign"))
+		rk := rkeys[victim]
+		s, err := cosi.Response(&fk, &rk, publics, msg)
+		if err != nil {
+			return
+		}
+		bad = *s
+	case "other-message":
+		m2 := msg
+		flip(m2[:], cs.Bit)
+		rk, pk := rkeys[victim], privs[victim]
+		s, err := cosi.Response(&pk, &rk, publics, m2)
+		if err != nil {
+			return
+		}
+		bad = *s
+	}
+	if valid(victim, &bad) {
+		return // astronomically unlikely: the tampered share is valid
+	}
+	st := func(s *[32]byte) string { return vh.Some(cosih.ZB(cosih.LEInt(s[:]))) }
+	respTerm := func(m map[int]*[32]byte) string {
+		var idx []int
+		for i := range m {
+			idx = append(idx, i)
+		}
+		sort.Ints(idx)
+		var el []string
+		for _, i := range idx {
+			el = append(el, "("+vh.ZI(int64(i))+", "+st(m[i])+")")
+		}
+		return vh.List(el, "(Z * option Z)")
+	}
+	verify := func(obj *crypto.CosiSignature, s *[32]byte, want bool, what string) {
+		var e error
+		p, _ := vh.Catch(func() { e = obj.VerifyResponse(publics, victim, s, msg) })
+		ops = append(ops, vh.App("OVerifyResp", vh.ZI(int64(victim)), st(s), resU(p, e)))
+		if p {
+			r.fail("verify-response-panic", "VerifyResponse panicked")
+		} else if (e == nil) != want {
+			r.fail("seq-verify-response", fmt.Sprintf("VerifyResponse(signer %d, %s share) accepted=%v %s", victim, mode, e == nil, what))
+		}
+	}
+	aggregate := func(obj *crypto.CosiSignature, m map[int]*[32]byte, strict, want bool, what string) {
+		var e error
+		p, _ := vh.Catch(func() { e = obj.AggregateResponse(publics, m, msg, strict) })
+		ops = append(ops, vh.App("OAggResp", respTerm(m), vh.Bool(strict), resZ(p, e, cosih.LEInt(obj.Signature[32:]))))
+		if p {
+			r.fail("aggregate-panic", "AggregateResponse panicked")
+		} else if (e == nil) != want {
+			r.fail("seq-aggregate", fmt.Sprintf("AggregateResponse(strict=%v) with a %s share for signer %d accepted=%v %s", strict, mode, victim, e == nil, what))
+		}
+	}
+	full := func(obj *crypto.CosiSignature, want bool, what string) {
+		var e error
+		t := bits.OnesCount64(obj.Mask)
+		p, _ := vh.Catch(func() { e = obj.FullVerify(publics, t, msg) })
+		ops = append(ops, vh.App("OFullVerify", vh.None("(list Z)"), cosih.ZB(sumR), cosih.ZB(cosih.LEInt(obj.Signature[32:])), vh.NU(obj.Mask),
+			cosih.NBytes(msg[:]), vh.ZI(int64(t)), resU(p, e)))
+		if p {
+			r.fail("full-verify-panic", "FullVerify panicked")
+		} else if (e == nil) != want {
+			r.fail("seq-full-verify", fmt.Sprintf("FullVerify accepted=%v %s (%s share)", e == nil, what, mode))
+		}
+	}
+	withBad := map[int]*[32]byte{}
+	for i, s := range resp {
+		withBad[i] = s
+	}
+	withBad[victim] = &bad
+	sumK := new(big.Int)
+	for i := 0; i < len(kz) && i < 64; i++ {
+		if mask&(1<<uint(i)) != 0 {
+			sumK.Add(sumK, kz[i])
+		}
+	}
+	degenerate := sumK.Mod(sumK, cosih.L).Sign() == 0 || sumR.Sign() == 0
+
+	verify(cosi, good, true, "(first call)")
+	verify(cosi, &bad, false, "after the good share of the same signer was verified on this object")
+	aggregate(cosi, withBad, true, false, "after the good share of the same signer was verified on this object")
+	if fresh, err := crypto.CosiAggregateCommitment(randoms); err == nil { // control: an object that never verified anything
+		aggregate(fresh, withBad, true, false, "on a fresh object")
+	}
+	canon := cosih.LEInt(bad[:]).Cmp(cosih.L) < 0
+	aggregate(cosi, withBad, false, canon, "(non-strict)")
+	if canon {
+		full(cosi, false, "for an aggregate containing a share that does not match its signer")
+	}
+	verify(cosi, good, true, "(again)")
+	aggregate(cosi, withBad, true, false, "after verify / aggregate / verify on this object")
+	aggregate(cosi, resp, true, true, "(all shares valid)")
+	if !degenerate {
+		full(cosi, true, "for the aggregate of valid shares")
+	}
+	commitsTerm, opsTerm, kzTerm := vh.List(commitsEl, "(Z * Z)"), vh.List(ops, "op"), zl(kz)
+	r.out = append(r.out, &cosih.MCase{Kind: cs.Kind, Key: key, Nontrivial: true, JS: cs, T: T,
+		Build: func(t *cosih.Tables) string {
+			return vh.App("CFlow", t.EncTerm(), t.HashTerm(), kzTerm, cosih.NBytes(msg[:]), cosih.ZB(sumR), "0%Z",
+				vh.NU(mask), commitsTerm, opsTerm)
+		}})
+}
+
 // modelOp bounds the per-signer operations sent to the model for large signer
 // sets (the oracle still checks every signer): all when <= 6, else about 5.
 func modelOp(n, i, salt int) bool {
@@ -584,7 +711,7 @@ func kzPriv(k crypto.Key) *big.Int { return cosih.LEInt(k[:]) }
 var kinds = []string{"honest", "honest", "honest", "share-bit", "share-bit", "share-swap", "share-msg", "share-random",
 	"share-noncanonical", "share-missing", "share-nil", "share-extra", "mask-index", "mask-flow-add", "commit-range",
 	"commit-garbage", "sig-s-bit", "sig-r-garbage", "sig-r-other", "msg", "key-sub", "key-unmasked-sub", "mask-add",
-	"mask-del", "threshold", "threshold", "bad-key"}
+	"mask-del", "threshold", "threshold", "bad-key", "seq-verified", "seq-verified"}
 
 func gen(r *vh.Rand, kind string, n int) Case {
 	cs := Case{N: n, KeySeed: r.U64(), NonceSeed: r.U64(), Kind: kind, Bit: r.Intn(256), Aux: r.Intn(1 << 20),
@@ -660,6 +787,11 @@ func corpus(r *vh.Rand) []Case {
 		q.Signers, q.BadKey, q.BadIdx, q.Aux, q.Threshold, q.Victim = []int{0, 1}, "special", 1, i, 1+i%2, 0
 		cs = append(cs, q)
 	}
+	for i := 0; i < 6; i++ { // order-dependent sequences on one object: each tamper mode, small and large masks
+		q := gen(r, "seq-verified", []int{1, 3, 5, 8, 20, 64}[i])
+		q.Aux = q.Aux - q.Aux%3 + i%3
+		cs = append(cs, q)
+	}
 	for _, n := range []int{1, 2, 63, 64} {
 		c := gen(r, "threshold", n)
 		cs = append(cs, c)
@@ -691,7 +823,7 @@ func main() {
 		"shuffled map), random message and threshold, one tamper kind per scenario (bit flip / swap / other message / random / s+l / missing / " +
 		"nil / extra share; mask index >= len(keys); mask bit without commitment; commitment index outside 0..63 or undecodable; signature S bit, " +
 		"R garbage/other point; message bit; masked / unmasked key replaced; mask bit added / removed; threshold sweep -1..65; undecodable, nil, " +
-		"identity key in the vector; sequence scenarios: every small-order / mixed-order / y>=p encoding first offered in all point-decoding positions of the package, then used as a masked key). Every scenario runs Challenge, all Responses, VerifyResponse per signer, strict and non-strict " +
+		"identity key in the vector; sequence scenarios: every small-order / mixed-order / y>=p encoding first offered in all point-decoding positions of the package, then used as a masked key; order-dependent sequences on ONE CosiSignature object: verify a good share, then offer a bit-flipped / foreign-key / other-message share of the same signer to VerifyResponse, strict and non-strict aggregation and FullVerify, control on a fresh object). Every scenario runs Challenge, all Responses, VerifyResponse per signer, strict and non-strict " +
 		"AggregateResponse, FullVerify. Non-trivial = the challenge could be computed (mask within the key vector); distinct by the whole scenario."
 	var all []*cosih.MCase
 	if c.Replay != "" {
